@@ -134,6 +134,32 @@ def make_probe(desc, k):
             after[i] = 9
             return {"stmts": st, "expect": render_list(after), "tag": "set_in", "what": what}
         return {"stmts": st, "expect": None, "tag": "set_out", "what": what}
+    if form == "litidx":
+        # the literal itself is the host of the index / slice (no variable in between)
+        _, kind, c, i = desc
+        bs = seq_bytes(kind, c)
+        n = len(bs)
+        decl = A.Declare(V(x), seq_expr(kind, c))
+        what = "literal %r[%d]" % (list(c) if kind == "list" else "".join(c), i)
+        if not (0 <= i < n):
+            return {"stmts": [A.pr(A.Index(seq_expr(kind, c), I(i)))], "expect": None, "tag": "literal_host_out", "what": what}
+        st = [decl, A.pr(A.Bin("==", A.Index(seq_expr(kind, c), I(i)), A.Index(V(x), I(i)))),
+              A.pr(A.Bin("==", A.RangeIndex(seq_expr(kind, c), I(i), None), A.RangeIndex(V(x), I(i), None))),
+              A.pr(A.Bin("==", A.RangeIndex(seq_expr(kind, c), None, I(i)), A.RangeIndex(V(x), None, I(i))))]
+        exp = ["true", "true", "true"]
+        if kind == "list":
+            st.append(A.pr(A.Index(seq_expr(kind, c), I(i))))
+            exp.append(str(bs[i]))
+        return {"stmts": st, "expect": exp, "tag": "literal_host_in", "what": what}
+    if form == "rangeidx":
+        _, a, b, i, direct = desc
+        n = max(0, b - a)
+        host = (lambda: A.Range(I(a), I(b))) if direct else (lambda: V(x))
+        pre = [] if direct else [A.Declare(V(x), A.Range(I(a), I(b)))]
+        what = "(%d..%d)[%d]%s" % (a, b, i, "" if direct else " through a variable")
+        if 0 <= i < n:
+            return {"stmts": pre + [A.pr(A.Index(host(), I(i))), A.pr(A.RangeIndex(host(), I(i), None))], "expect": [str(a + i)] + render_list(list(range(a + i, b))), "tag": "range_host_in", "what": what}
+        return {"stmts": pre + [A.pr(A.Index(host(), I(i)))], "expect": None, "tag": "range_host_out", "what": what}
     if form == "setop":
         _, c, i, op = desc
         n = len(c)
@@ -281,6 +307,14 @@ def run(rep, tier):
             if n <= 3 or i in (-1, n - 1, n, n + 1):
                 descs.append(("setop", c, i, "+-*"[(i + n) % 3]))
     descs.append(("setstr", ("a", "b")))
+    for kind, c in seqs(tier):
+        if len(c) <= 3:
+            for i in range(-1, len(seq_bytes(kind, c)) + 2):
+                descs.append(("litidx", kind, c, i))
+    for a, b in ((0, 0), (0, 1), (0, 3), (2, 5), (-2, 1), (3, 3), (5, 2), (7, 8)):
+        for i in range(-1, max(0, b - a) + 2):
+            for direct in (True, False):
+                descs.append(("rangeidx", a, b, i, direct))
     for variant in ("self", "other", "element_of_self", "strings"):
         descs.append(("opcat", variant))
     for variant in ("assign", "opassign", "read", "range_assign"):
